@@ -243,6 +243,11 @@ var snippets = []string{
 	"while(a)x='s'", "while(a)`t`", "while(a)/r/", "while(a)1", "do 's';while(a)", "if(a)'s';else `t`", "for(;;)'s'", "for(a in b)`t`", "for(a of b)/r/", "with(a)'s'", "l:'s'",
 	"switch(a){case 's':`t`;default:/r/}", "try{'s'}catch{`t`}finally{/r/}", "while('s')`t`", "x={'5':1}", "class A{'5'(){}}", "x={'1.0':1,'.5':2,'5.':3,'010':4,'a':5,'if':6,'a-b':7}",
 	"let instanceof b", "let in b", "let\ninstanceof b",
+	// unbraced bodies that are declarations or end in an expression: what follows must stay a separate statement
+	"while(a)var x=b", "for(;;)var x=b", "for(a in b)var x=c", "for(a of b)var x=c", "if(a)var x=b", "if(a)var x=b;else var y=c", "do var x=b;while(a)", "with(a)var x=b", "l:var x=b",
+	"while(a)x=b", "for(;;)x=b", "if(a)x=b;else y=c", "l:x=b", "while(a)x=function(){}", "while(a)x=class{}", "if(a)x=()=>{}", "while(a)do x=b;while(c)", "if(a)return;else throw b",
+	"var x=b", "let x=b", "const x=b", "x=b", "x=function(){}", "x=class{}", "x=()=>{}", "x=a=>b", "x=a++", "x=a--", "break", "continue", "debugger", "throw a", "x=yield", "x=await a", "do a;while(b)",
+	"class A{a=b}", "class A{a}", "class A{static a=b}", "class A{a=b;c}", "class A{a=()=>{}}", "x=`t`", "x=/r/", "x=1", "x='s'", "x=[a]", "x=(a)", "x={}",
 	"x=a<!--b\nc", "x=a\n-->b\nc", "x=a-->b", "x=a--\n>b", "x=a-- > b", "x=a< !--b", "<!--a\nb", "-->a\nb", "x=a</b/",
 }
 
@@ -303,6 +308,13 @@ func Record(args []string) {
 		if !strings.HasPrefix(s, "import") && !strings.HasPrefix(s, "export") && !strings.HasPrefix(s, "'use") && !strings.HasPrefix(s, "#!") &&
 			!strings.HasPrefix(s, "return") && !strings.HasPrefix(s, "<!--") && !strings.HasPrefix(s, "-->") {
 			stmts = append(stmts, s)
+		}
+	}
+	// every statement followed by a statement that starts with a token which could continue an expression: the printer must
+	// keep them apart (a missing ';' is not repaired by automatic semicolon insertion before ( [ + - / ` ++ --)
+	for _, s := range stmts {
+		for _, f := range []string{"(a)", "[a]", "+a", "-a", "/a/.b", "`t`", "++a", "--a", "a", "function f(){}", "var y", "in_", "instanceof_"} {
+			try(s+";\n"+f, "follow")
 		}
 	}
 	seps := []string{";\n", ";", "\n", ";\n", " ;"}
